@@ -35,6 +35,17 @@ def make_draw(op, dim, r, core=False, mp=True, momentum=None, odim=None, unit_qu
             od = odim if odim is not None else r.choice(op.other_dims(dim))
             odim = od
             o, ol = gen.vec(r, od, **kw)
+            if (od == dim or (dim >= 3 and od > dim)) and r.random() < (0.3 if op.group in ("delta", "predicate") else 0.1):
+                # collinear stratum: the second vector is exactly k or -k times the first (spatial part); cosines of
+                # +-1 are where clamps, arccos and the parallel/antiparallel predicates live
+                k = gen.dyadic(r, 0.25, 4)
+                sgn = r.choice([1, -1])
+                c = list(self_rv.comps())
+                comps = [sgn * k * c[i] for i in range(min(3, dim))]
+                if od == 4:
+                    comps.append(k * c[3] if dim == 4 else gen._round_dyadic(self_rv.mag * k * mpf("1.5"), 40))
+                if len(comps) == od:
+                    o, ol = R.RV(*comps), ("parallel" if sgn > 0 else "antiparallel")
             args.append(("vec", o))
             lab += "/" + ol
         elif kind == "p4":
